@@ -549,6 +549,8 @@ func isNoopStub(fn *ssa.Function, name string) bool {
 		return true
 	}
 	switch name {
+	case "golang.org/x/net/ipv4.NewControlMessage", "golang.org/x/net/ipv6.NewControlMessage":
+		return true
 	case "github.com/caddyserver/caddy/v2.RegisterModule",
 		"github.com/caddyserver/caddy/v2/modules/caddyhttp.init",
 		"github.com/caddyserver/caddy/v2/caddyconfig/httpcaddyfile.RegisterGlobalOption",
